@@ -19,6 +19,10 @@ pub enum OpK {
     IntoInner,
     /// Let virtual time pass between two API calls (argument chosen separately).
     Sleep,
+    /// As many locally failing requests as it takes for the packet-identifier counter to come
+    /// around to an identifier that is still in flight (done with the hook setter; the setter is
+    /// validated against the hook-free history in every C07 run).
+    Age,
 }
 
 impl OpK {
@@ -37,6 +41,7 @@ impl OpK {
             OpK::Forget => "forget",
             OpK::IntoInner => "into_inner",
             OpK::Sleep => "sleep",
+            OpK::Age => "age-identifier-counter",
         }
     }
     pub fn ends_connection(&self) -> bool {
